@@ -32,6 +32,13 @@ class _TupleStrip(ast.NodeTransformer):
                     isinstance(a, ast.Call) and isinstance(a.func, ast.Name)
                     and a.func.id == 'tuple'):
                 return a
+        # getattr(x, 'name') with a literal name reads x.name
+        if isinstance(node.func, ast.Name) and node.func.id == 'getattr' and \
+                len(node.args) == 2 and not node.keywords and \
+                isinstance(node.args[1], ast.Constant) and \
+                isinstance(node.args[1].value, str) and node.args[1].value.isidentifier():
+            return ast.Attribute(value=node.args[0], attr=node.args[1].value,
+                                 ctx=ast.Load())
         # a copy of a fresh list display has the same content: list([..]) -> [..]
         if isinstance(node.func, ast.Name) and node.func.id == 'list' and \
                 len(node.args) == 1 and not node.keywords and \
@@ -101,7 +108,15 @@ def cached_lookup_spec(rep, rule, func, site, uncached, cache_expr, key_kind,
         kf = ps.fact('len(tuple(required)) == 1')
         if kf is None:
             kf = ps.fact('len(required) == 1')
-        if key_kind == 'single-or-tuple':
+        keyast = g.r.args[0]
+        if key_kind == 'single-or-tuple' and isinstance(keyast, ast.IfExp):
+            # the key computed once by a conditional expression
+            tab = ifexp_table(_TupleStrip().visit(clone(keyast)))
+            okk = tab in ({(('len(required) == 1', True),): 'required[0]',
+                           (('len(required) == 1', False),): 'required'},)
+            if not okk:
+                problems.append('key `%s`' % key[:80])
+        elif key_kind == 'single-or-tuple':
             want = 'required[0]' if kf else 'required'
             if kf is None or key != want:
                 problems.append('key `%s` with len(required) == 1 being %s (required `%s`)'
@@ -833,3 +848,68 @@ def fetch_order_spec(rep, rule, func, site):
               'providedBy(object)) comes between fetching the cache dictionary and '
               'probing it (%d probes)' % n if not problems else
               {'problems': sorted(set(problems))[:3]}, construct='fetch-order', node=func)
+
+
+# ---------------------------------------------------------------------------
+# generic: events required on every normal path, in order
+
+def ev_matcher(pattern):
+    """predicate over a summary event from a source pattern: a call pattern
+    (`self.changed($$a)`), a store (`self.x = $v`), an augmented store
+    (`self.n += $k`) or a deletion (`del self.x`).  Patterns are matched
+    against RESOLVED expressions, so local aliases do not matter."""
+    import ast as _a
+    try:
+        st = _a.parse(_prep_pat(pattern)).body[0]
+    except SyntaxError:
+        raise AnalysisError('bad pattern %r' % pattern)
+    if isinstance(st, _a.Expr):
+        return lambda e: e.kind == 'call' and match(pattern, e.r) is not None
+    if isinstance(st, _a.Assign):
+        tgt = pattern.split('=', 1)[0].strip()
+        val = pattern.split('=', 1)[1].strip()
+        return lambda e: e.kind == 'store' and match(tgt, e.r) is not None and \
+            e.val is not None and match(val, e.val) is not None
+    if isinstance(st, _a.AugAssign):
+        tgt = pattern.split('+=')[0].split('-=')[0].strip()
+        return lambda e: (e.kind == 'aug' and match(tgt, e.r) is not None) or (
+            e.kind == 'store' and match(tgt, e.r) is not None)
+    if isinstance(st, _a.Delete):
+        tgt = pattern[4:].strip()
+        return lambda e: e.kind == 'del' and match(tgt, e.r) is not None
+    raise AnalysisError('unsupported pattern %r' % pattern)
+
+
+def _prep_pat(p):
+    import re
+    return re.sub(r'\$\$?(\w+)', r'MV_\1', p)
+
+
+def paths_have(func, alternatives, lists=False):
+    """(ok, witness): every normal path has an event matching one of the
+    alternative patterns"""
+    preds = [ev_matcher(p) for p in alternatives]
+    ss = normal(summaries(func))
+    if not ss:
+        return False, 'no normal path'
+    for ps in ss:
+        if not any(p(e) for e in ps.events for p in preds):
+            return False, {'missing': alternatives[0],
+                           'path_facts': [(c[:60], t) for c, t, p in ps.order][:5],
+                           'path_events': [repr(e)[:60] for e in ps.events][:6]}
+    return True, None
+
+
+def paths_order(func, first_alts, then_alts):
+    """on every normal path, every event matching `then` is preceded by one
+    matching `first`"""
+    a = [ev_matcher(p) for p in first_alts]
+    b = [ev_matcher(p) for p in then_alts]
+    for ps in normal(summaries(func)):
+        seen = False
+        for e in ps.events:
+            if any(p(e) for p in a):
+                seen = True
+            elif any(p(e) for p in b) and not seen:
+                return False
+    return True
